@@ -738,8 +738,22 @@ def _add_false(spec_text):
     t = spec_text.rstrip()
     if t.endswith(','):
         t = t[:-1]
-    if re.search(r'\bensures\b', t):
+    m_ens = None
+    for m_ens in re.finditer(r'\bensures\b', t):
+        pass
+    if m_ens is not None:
+        # a function-level `decreases` clause follows the postconditions: `false` belongs in front of it
+        m_dec = re.search(r'\n\s*decreases\b', t[m_ens.end():])
+        if m_dec:
+            cut = m_ens.end() + m_dec.start()
+            head = t[:cut].rstrip()
+            if head.endswith(','):
+                head = head[:-1]
+            return head + ',\n        false,' + t[cut:] + ',\n'
         return t + ',\n        false,\n'
+    m_dec = re.search(r'(^|\n)\s*decreases\b', t)
+    if m_dec:
+        return t[:m_dec.start()] + '\n    ensures false,' + t[m_dec.start():] + ',\n'
     return t + '\n    ensures false,\n'
 
 
